@@ -549,14 +549,19 @@ def run(b, tier, seed, findings, known_seen):
     return b
 
 
+def _findings():
+    from vc.common import findings_for
+    return findings_for("C02")
+
+
 CONCRETISERS = {
     "V1": lambda prov: check_vddd(prov),
-    "V2": lambda prov: check_lists(prov, [], [])[0],
+    "V2": lambda prov: check_lists(prov, _findings(), [])[0],
     "V3": lambda prov: check_period(prov)[0],
     "E": lambda prov: check_encode(prov)[0],
     "A": lambda prov: check_add(prov, random.Random(0), 400)[0],
     "D": lambda prov: check_vddd(prov) + check_period(prov)[0],
-    "T": lambda prov: grid(prov, "quick", [], [])[0],
+    "T": lambda prov: grid(prov, "quick", _findings(), [])[0],          # listed findings are not confirmations of anything else
     "S": lambda prov: check_setters(prov)[0],
 }
 
